@@ -25,6 +25,9 @@ mod lists_corr;
 mod strings_corr;
 mod macros_corr;
 mod missed_corr;
+mod optin_corr;
+mod optin_inproc;
+mod optin_e2e;
 mod corpus;
 mod gen;
 mod sweep;
@@ -103,6 +106,8 @@ fn main() {
         "missed" => missed_corr::run(&tier, seed, &out),
         "missed-width" => missed_corr::width_probe(),
         "missed-c03" | "missed-c08" | "missed-c16" | "missed-c02" => missed_corr::run_part(&prop[7..], &tier, seed, &out),
+        "optin" => optin_corr::run(&tier, seed, &out),
+        "optin-dump" => optin_corr::dump(&args[2], args.get(3)),
         "boundary" => boundary::main(&args[2..]),
         "c03" => c03::run(&tier, seed, &out),
         "lists" => lists_corr::run(&tier, seed, &out),
